@@ -9,15 +9,13 @@ DRIVER = "drv_hash"
 HARNESS_BIN = "hash"
 HARNESS_FEATURES = "extras"
 PARTIAL = [
-    "unordered_discriminates_partial / umap_discriminates_partial: discrimination 'up to a 128-bit collision' is proved "
-    "for one hash-ordered collection (HashSet/HashMap/BinaryHeap/Dash*) whose entries lie in the ordered fragment; "
-    "C13_full_statement (hash-ordered collections nested at any depth, e.g. HashMap<K, HashSet<V>> or "
-    "Vec<HashSet<T>>: equal streams => same value up to entry order unless some collection inside is a sum "
-    "collision) is stated but not proved.  What IS proved for every nesting: permutation invariance "
-    "(unordered_perm_invariant is stated on the multiset of entry *streams*, so it composes), NaN erasure, "
-    "the fixed 24-byte framing of every hash-ordered collection",
-    "fingerprint_discriminates: the collision disjunct is 'two different byte strings with one SipHash-128 value'; "
-    "that SipHash makes this improbable is not a theorem (cryptographic assumption)",
+    "no _partial theorem: stream_discriminates is the full discrimination statement for every type of the universe "
+    "(hash-ordered collections nested at any depth).  Its 'up to a 128-bit collision' is the explicit disjunct "
+    "SomeCollision (two different multisets of entry streams of one size with equal sub-hash sums mod 2^128) and, in "
+    "fingerprint_discriminates(_all), 'two different byte strings with one SipHash-128 value'; that these events are "
+    "improbable for SipHash is a cryptographic assumption, not a theorem.  (A wrapping SUM of sub-hashes is weaker "
+    "than a hash of the sorted entries: multiset collisions can be searched with generalised-birthday methods; the "
+    "crate documents itself as not for security purposes.)",
 ]
 ASSUMPTIONS = [
     "target: 64-bit little-endian (usize/isize and default enum discriminants are 8 bytes; the raw bytes of "
